@@ -375,10 +375,20 @@ def c09(run):
     sessions = []
     sid = 0
     rounds = 1 if quick else 6
+    def weight(r):
+        """how many faults meet in one place: faulting occurrences of the fullest DAG layer minus the number of layers, else
+        the number of faulting rules"""
+        f = {n for n, b in r["beh"] if b == "fault"}
+        if r["method"] == "ExecuteDAGModel":
+            return max([sum(1 for n in layer if n in f) for layer in r["dag"]] + [0]) * 10 - len(r["dag"])
+        return len(f)
     for m, rs in sorted(by_method.items()):
+        top = max(weight(r) for r in rs)
+        heavy = [r for r in rs if weight(r) == top]
         for rd in range(rounds):
-            for code in FAULT_CODES:
-                r = rng.choice(rs)
+          for code in FAULT_CODES:
+            # a random scenario, and one in which as many faults as possible meet (same stage / same layer)
+            for r in (rng.choice(rs), rng.choice(heavy)):
                 for tgt in (("engine", "pool") if not quick else (rng.choice(["engine", "pool"]),)):
                     if tgt == "pool" and not r["rules"]:
                         continue
@@ -391,8 +401,8 @@ def c09(run):
                     sid += 1
                     sessions.append({"id": sid, "target": tgt, "gated": r["method"] not in X.SEQ_ONLY and rng.random() < 0.7,
                                      "burst": rng.random() < 0.3, "rules": decl, "calls": [call, healthy, dict(call)], "fault": code})
-    if quick and len(sessions) > 1800:
-        sessions = rng.sample(sessions, 1800)
+    if quick and len(sessions) > 3000:
+        sessions = rng.sample(sessions, 3000)
     ns, nrej = X.run_and_validate(run, sessions, "faults", keys=True, timeouts_reproduce=True)
     run.cov["evaluations"] = ns
     run.cov["fault_classes_x_positions"] = len(FAULT_CODES)
